@@ -396,6 +396,56 @@ def check(prog, rep):
                         ok = True
         rep.ob("R16.1", f"{c}.get_variables", ok, "unions get_variables() over all element expressions" if ok else "does not union the variables of all element expressions", loc=gv.loc if gv else prog.cls(c).loc, detail="elements")
 
+    # ------------------------------------------------------------------ R16.1 a get_variables() that hands out a set it keeps
+    # on the node, together with a caller that edits such a set in place (|=, update, add ...): the node's own answer
+    # changes behind its back, and with it the variables of every later problem that uses the node
+    from ..astutil import reaching_values
+    keepers = []
+    for ci in prog.classes.values():
+        gv_ = ci.methods.get("get_variables")
+        if gv_ is None:
+            continue
+        stored = {}           # local name -> attr it is stored under / read from
+        for n_ in walk_local(gv_.node):
+            if isinstance(n_, ast.Assign):
+                for t_ in n_.targets:
+                    if isinstance(t_, ast.Attribute) and dotted(t_.value) == "self" and isinstance(n_.value, ast.Name):
+                        stored[n_.value.id] = t_.attr
+                    if isinstance(t_, ast.Name) and isinstance(n_.value, ast.Attribute) and dotted(n_.value.value) == "self":
+                        stored[t_.id] = n_.value.attr
+        for r_ in [x for x in walk_local(gv_.node) if isinstance(x, ast.Return) and x.value is not None]:
+            v_ = r_.value
+            if (isinstance(v_, ast.Attribute) and dotted(v_.value) == "self" and v_.attr.startswith("_") and v_.attr not in ("_variables",)) or (isinstance(v_, ast.Name) and v_.id in stored):
+                keepers.append((ci, gv_, stored.get(v_.id) if isinstance(v_, ast.Name) else v_.attr, r_))
+                break
+    SOURCES = ("get_variables", "get_all_variables", "_get_variables_iterative")
+    editors = []
+    for f_ in prog.functions.values():
+        if f_.name in SOURCES:
+            continue
+        for n_ in walk_local(f_.node):
+            nm_ = None
+            if isinstance(n_, ast.AugAssign) and isinstance(n_.target, ast.Name) and isinstance(n_.op, (ast.BitOr, ast.BitAnd, ast.Sub, ast.BitXor)):
+                nm_ = n_.target.id
+            elif isinstance(n_, ast.Call) and isinstance(n_.func, ast.Attribute) and isinstance(n_.func.value, ast.Name) and n_.func.attr in ("update", "add", "discard", "remove", "clear", "pop", "difference_update", "intersection_update"):
+                nm_ = n_.func.value.id
+            if nm_ is None:
+                continue
+            for d_ in reaching_values(n_, nm_):
+                dd = [d_] if d_ == "?" else ([d_.body, d_.orelse] if isinstance(d_, ast.IfExp) else [d_])
+                for x_ in dd:
+                    if isinstance(x_, ast.Call) and ((isinstance(x_.func, ast.Attribute) and x_.func.attr in SOURCES) or (isinstance(x_.func, ast.Name) and x_.func.id in SOURCES)):
+                        editors.append((f_, n_, nm_, x_))
+    for ci, gv_, attr_, r_ in keepers:
+        if editors:
+            f_, n_, nm_, x_ = editors[0]
+            rep.ob("R16.1", f"{ci.name}.get_variables", False,
+                   f"{ci.name}.get_variables() hands out the set it keeps in self.{attr_} (no copy), and {f_.qual.split(':')[1]} edits a set obtained from `{src(x_)[:40]}` in place (`{src(n_)[:40]}`, {f_.module.rel}:{n_.lineno}): "
+                   f"variables of other expressions are added to the node's own memo, so a later problem that reuses the node reports variables it does not mention",
+                   loc=f"{gv_.module.rel}:{r_.lineno}", detail="hands-out-memo", robust=True)
+        else:
+            rep.ob("R16.1", f"{ci.name}.get_variables", True, f"keeps its answer in self.{attr_}; no caller in the package edits such a set in place", loc=gv_.loc, detail="hands-out-memo", trivial=True)
+
     # ------------------------------------------------------------------ R16.2
     walker = prog.func("optyx.core.expressions:_get_variables_iterative")
     d = _walker_by_scenario(prog, rep, walker)
